@@ -245,8 +245,27 @@ def table_entries(ctx: Ctx, rule="R1.2"):
     return n
 
 
+def built_at_construction(ctx: Ctx, rule="R1.2"):
+    """The projections are those of the target as it is when the map is constructed: __init__ builds the map on every
+    path, and nothing on the call path builds it again (a lazily built map sees whatever happened to the construction
+    molecules in between)."""
+    em = EM(ctx)
+    cfg = CFG(em.init.node)
+    dom = cfg.dominators()
+    calls = [c for c in calls_in(em.init.node) if call_name(c) == em.make_map.name]
+    ok = bool(calls) and cfg.node_containing(calls[0]) is not None and cfg.node_containing(calls[0]).id in dom[cfg.exit.id]
+    ctx.ob(rule, em.init, calls[0] if calls else "map construction", ok,
+           "the constructor computes the anchor of every target atom and its projection (on every path)"
+           + ("" if ok else " -- the map builder is not called unconditionally in __init__"), node=calls[0] if calls else em.init.node)
+    late = [(g, c) for g in em.call_path() for c in calls_in(g.node) if call_name(c) == em.make_map.name]
+    ctx.ob(rule, em.call, late[0][1] if late else "map builder on the call path: none", not late,
+           "applying the map never rebuilds it" + ("" if not late else " -- `%s` in %s builds the projections at first use, from the "
+           "molecules as they are then" % (norm(late[0][1]), late[0][0].name)), node=late[0][1] if late else em.call.node)
+
+
 def r1_2(ctx: Ctx, rule="R1.2"):
     table_entries(ctx, rule)
+    built_at_construction(ctx, rule)
     em = EM(ctx)
     pj = find_product(em.project.node, em)
     rs = find_product(em.restore_point.node, em)
